@@ -6,5 +6,6 @@
 //@include units/wcet.rs
 //@include units/wcet_cache.rs
 //@include units/demand.rs
+//@include units/wcet_multiframe.rs
 //@include units/lemmas_wcet.rs
 fn main() {}
